@@ -52,25 +52,31 @@ Sig(r) ==
    direct |-> IF r.d.kind # "render" THEN "n/a" ELSE IF DirectIsRaw(r) THEN "raw-inclusion" ELSE "other",
    tag |-> HasG(r.d.body)]
 
-(* ---- record-walk skeleton (same in every record-per-line Trace spec; see spec/README) ---- *)
+(* ---- record-walk skeleton (as in every record-per-line Trace spec; each record is judged once: OkVec) ---- *)
 VARIABLES l, nbad
 Obs == ndJsonDeserialize("obs.ndjson")
+Force(f) == SelectSeq(f, LAMBDA x : TRUE)             \* a concrete tuple (evaluates every element exactly once)
+OkVec == Force([i \in 1..Len(Obs) |-> RecOk(Obs[i])])
 Init == l = 1 /\ nbad = 0
-Next == l <= Len(Obs) /\ l' = l + 1 /\ nbad' = nbad + (IF RecOk(Obs[l]) THEN 0 ELSE 1)
-BadIdx == SelectSeq([i \in 1..Len(Obs) |-> i], LAMBDA i : ~RecOk(Obs[i]))
+Next == l <= Len(Obs) /\ l' = l + 1 /\ nbad' = nbad + (IF OkVec[l] THEN 0 ELSE 1)
+BadIdx == SelectSeq([i \in 1..Len(Obs) |-> i], LAMBDA i : ~OkVec[i])
 
 (* ---- diagnostics only: do the models predict the observation? ---- *)
 AllOk(r) == \A i \in 1..Len(r.variants) : IsOk(r.variants[i])
 DriftIdx == SelectSeq([i \in 1..Len(Obs) |-> i],
                       LAMBDA i : Obs[i].id % DriftEvery = 0 /\ ModelDefined(Obs[i].d) /\ AllOk(Obs[i]))
-Predicts(r, M(_)) == LET vs == Variants(r.d) IN \A i \in 1..Len(vs) : VOf(r, vs[i].name).out = M(vs[i])
-RefUndefined(r) == LET vs == Variants(r.d) IN \E i \in 1..Len(vs) : ~Defined(RefOut(vs[i]))
-DriftAsWritten == SelectSeq(DriftIdx, LAMBDA i : ~Predicts(Obs[i], LAMBDA v : ImplOut(v, AsWritten)))
-NDriftAsWritten == Len(DriftAsWritten)
-NDriftRenderFixed == Len(SelectSeq(DriftIdx, LAMBDA i : ~Predicts(Obs[i], LAMBDA v : ImplOut(v, OnlyRenderFixed))))
-NDriftFixed == Len(SelectSeq(DriftIdx, LAMBDA i : ~Predicts(Obs[i], LAMBDA v : ImplOut(v, Fixed))))
-NDriftRef == Len(SelectSeq(DriftIdx, LAMBDA i : ~Predicts(Obs[i], RefOut)))
-NRefUndefined == Len(SelectSeq(DriftIdx, LAMBDA i : RefUndefined(Obs[i])))
+\* for one record: which models mispredict some variant's real output (each model evaluated once)
+DriftRec(r) ==
+  LET vs == Variants(r.d)
+      real == [i \in 1..Len(vs) |-> VOf(r, vs[i].name).out]
+      ref == [i \in 1..Len(vs) |-> RefOut(vs[i])]
+      miss(M(_)) == \E i \in 1..Len(vs) : real[i] # M(vs[i]) IN
+  [aw |-> miss(LAMBDA v : ImplOut(v, AsWritten)), rf |-> miss(LAMBDA v : ImplOut(v, OnlyRenderFixed)),
+   fx |-> miss(LAMBDA v : ImplOut(v, Fixed)), ref |-> \E i \in 1..Len(vs) : real[i] # ref[i],
+   undef |-> \E i \in 1..Len(vs) : ~Defined(ref[i])]
+DriftVec == Force([j \in 1..Len(DriftIdx) |-> DriftRec(Obs[DriftIdx[j]])])
+Count(Pred(_)) == Len(SelectSeq(DriftVec, Pred))
+DriftAsWritten == SelectSeq([j \in 1..Len(DriftIdx) |-> j], LAMBDA j : DriftVec[j].aw)
 \* the atom table of Compose.tla against the real code (machinery check, not a verdict)
 CalibBad == SelectSeq([i \in 1..Len(Obs) |-> i],
                       LAMBDA i : Obs[i].d.kind = "calib" /\ ~(IsOk(Obs[i].variants[1]) /\ Obs[i].variants[1].out = Atom[Obs[i].d.pf].b))
@@ -82,8 +88,9 @@ Done == l = Len(Obs) + 1 =>
                ELSE [j \in 1..Len(BadIdx) |->
                        [k |-> BadIdx[j], id |-> Obs[BadIdx[j]].id, sig |-> Sig(Obs[BadIdx[j]]), nbad |-> nbad]])
           /\ ndJsonSerialize("drift.ndjson",
-               <<[records |-> Len(DriftIdx), aswritten |-> NDriftAsWritten, renderfixed |-> NDriftRenderFixed, fixed |-> NDriftFixed, ref |-> NDriftRef,
-                  ref_undefined |-> NRefUndefined,
-                  aswritten_ids |-> [j \in 1..(IF NDriftAsWritten < 20 THEN NDriftAsWritten ELSE 20) |-> Obs[DriftAsWritten[j]].id], calib_bad |-> Len(CalibBad), not_built |-> NotBuilt]>>)
+               <<[records |-> Len(DriftIdx), aswritten |-> Count(LAMBDA x : x.aw), renderfixed |-> Count(LAMBDA x : x.rf),
+                  fixed |-> Count(LAMBDA x : x.fx), ref |-> Count(LAMBDA x : x.ref), ref_undefined |-> Count(LAMBDA x : x.undef),
+                  aswritten_ids |-> [j \in 1..(IF Len(DriftAsWritten) < 20 THEN Len(DriftAsWritten) ELSE 20) |-> Obs[DriftIdx[DriftAsWritten[j]]].id],
+                  calib_bad |-> Len(CalibBad), not_built |-> NotBuilt]>>)
 Consumed == TLCGet("stats").diameter - 1 = Len(Obs)
 =============================================================================
